@@ -32,7 +32,7 @@ def main(prop, tier, replay=None):
             V.proof_fail(f)
     S = CW.Stats()
     fails_other = {}
-    coord_stats = {}
+    coord_stats = {"focus": prop}
 
     def on_fail(p, sig, desc, rep):
         if p == prop:
@@ -64,6 +64,19 @@ def main(prop, tier, replay=None):
                             fails_other[t] = fails_other.get(t, 0) + 1
                 CC.run_sessions(drv, rng, info["tables"]["defender"], cfail8, coord_stats, 60 if quick else 600, 45,
                                 {"burst": 0.15, "leave": 0.10, "bad": 0.02, "early_reset": 0.08})
+            if prop == "C11" and info.get("tables"):
+                # coordinator level: the views agents are actually SENT (start of every episode, static and dynamic addresses,
+                # 'all_local' / 'random' start positions) list only hosts that exist and everything the start position lists
+                from . import check_coord as CC
+
+                def cfail11(tags, sig, desc, rep):
+                    if "C11" in tags:
+                        V.fail("coord:" + sig, desc, rep)
+                    else:
+                        for t in tags:
+                            fails_other[t] = fails_other.get(t, 0) + 1
+                CC.run_sessions(drv, rng, info["tables"]["defender"], cfail11, coord_stats, 50 if quick else 500, 40,
+                                {"burst": 0.1, "leave": 0.05, "bad": 0.02, "early_reset": 0.15, "roles": ["Attacker", "Defender", "Defender"]})
             if prop == "C12" and info.get("tables"):
                 # coordinator level: nothing an agent holds (view, counters, status, reward beyond the documented
                 # barrier outcome) may change because ANOTHER connection sent something
@@ -90,7 +103,7 @@ def main(prop, tier, replay=None):
            "traces_validated_against_impl": S.steps, "steps_by_action_type": S.by_type,
            "pre_true": S.pre_true, "pre_false": S.pre_false, "raised": S.raised, "scenario_loads": S.loads, "resets": S.resets,
            "single_false_guard_histogram": {f"{k[0]}#{k[1]}": v for k, v in sorted(S.guard_only_false.items())},
-           "earlier_view_recomparisons": S.snap_checks,
+           "earlier_view_recomparisons": S.snap_checks, "directed_interference_probes": S.directed_interference, "post_reset_readonly_probes": S.post_reset_probes,
            "coordinator_session_events": coord_stats.get("events", 0),
            "out_of_scope_disagreements": fails_other, "proof_failures": V.proof_failures}
     write_evidence(prop, tier, "proof", cov, T.s(), nviol,
